@@ -39,7 +39,7 @@ class Ctx:
         # a lost text or a stalled key exchange in its (attacked) runs is its violation too
         self.also_props = {"C06": {"C04", "C07"}}.get(pid, set())
         # projected fields that are visible through the public API for this property
-        self.obs_state = {"C01": {"sess", "peer", "ms", "rev"}, "C15": {"ttag", "otag"},
+        self.obs_state = {"C01": {"sess", "peer", "ms", "rev"}, "C15": {"ttag", "otag", "ver"},
                           "C07": {"ms", "sess", "peer"}, "C03": {"ms"}, "C16": {"ver"},
                           # the state the property itself speaks about: what is retained (C08: texts and exponents;
                           # C19: everything that grows), the SMP state machine (C11, C12), the fragment context (C14)
@@ -450,6 +450,9 @@ def c03(ctx):
     ctx.export_validate("c03x", dict(PolA=7, PolB=3 | 4, MaxSend=1, MaxFlight=3, MaxQuery=1, MaxEnd=1), "life", drain=True,
                         maxsched=2500 if ctx.quick() else 20000)
     ctx.random_validate("life", 64 if ctx.quick() else 480, 60 if ctx.quick() else 150)
+    # texts the user typed that begin like a query message (to the receiver they are one)
+    ctx.random_validate("qlife", 64 if ctx.quick() else 480, 60 if ctx.quick() else 150)
+    ctx.random_validate("qerrlife", 32 if ctx.quick() else 240, 60 if ctx.quick() else 150)
 
 
 _SESSION = [dict(a="Query", p="A"), dict(a="Deliver", p="B"), dict(a="Deliver", p="A"), dict(a="Deliver", p="B"),
@@ -558,6 +561,8 @@ def c15(ctx):
                                allpos=not q, maxsched=40 if q else 300)
     ctx.random_validate("data", 32 if q else 200, 40)
     ctx.attack_catalogue("tags")
+    # fragments carry instance tags of their own: Frag.tla says which instance the conversation is bound to
+    frag_model(ctx, sender=False)
 
 
 def c16(ctx):
@@ -630,10 +635,19 @@ def c12(ctx):
 
 
 def c14(ctx):
+    frag_model(ctx, sender=True)
+    # fragmentation inside real sessions (sizes swept one by one, both versions)
+    q = ctx.quick()
+    ctx.random_validate("fragsweep", 16 if q else 64, 30 if q else 120)
+    ctx.also_props = {"C04"}
+
+
+def frag_model(ctx, sender=True):
     """Frag.tla: sender arithmetic (ASSUME over all L, S, both header lengths) and the receiver automaton
     (every arrival sequence up to MaxArrivals); every transition's schedule is replayed on a real
     Conversation (v2 and v3) and context/processed compared with the model's state; the real fragmenter
-    is swept over sizes x lengths against the model's arithmetic; plus the fragment-size sweep of C04."""
+    is swept over sizes x lengths against the model's arithmetic (sender=True).  Under v3 the model also says
+    which peer instance the conversation is bound to after the arrivals (C15)."""
     import subprocess, shutil, glob, re
     q = ctx.quick()
     d = os.path.join(ctx.work, "frag")
@@ -669,7 +683,7 @@ CHECK_DEADLOCK FALSE
     parts = vlib.NCPU
     procs = []
     for i in range(parts):
-        args = [vlib.BIN, "fragcheck", "-sizestep", "11" if q else "1", "-part", str(i), "-parts", str(parts)]
+        args = [vlib.BIN, "fragcheck", "-sizestep", ("11" if q else "1") if sender else "4001", "-part", str(i), "-parts", str(parts)]
         if i == 0:
             args += ["-sched", sched]
         procs.append(subprocess.Popen(args, stdout=subprocess.PIPE, text=True))
@@ -692,12 +706,9 @@ CHECK_DEADLOCK FALSE
     ctx.extra_cov["fragment_sender_evaluations"] = evals
     if viol:
         os.makedirs(os.path.join(vlib.VERIF, "replays"), exist_ok=True)
-        rp = os.path.join(vlib.VERIF, "replays", "C14-frag.json")
-        json.dump(dict(property="C14", first=first), open(rp, "w"))
+        rp = os.path.join(vlib.VERIF, "replays", "%s-frag.json" % ctx.pid)
+        json.dump(dict(property=ctx.pid, first=first), open(rp, "w"))
         ctx.findings.append(dict(kind="FRAG", reason=first or "fragmentation differs from Frag.tla", trace=None, line=0, ev="fragcheck", p="-", run=None, idx=None))
-    # fragmentation inside real sessions (sizes swept one by one, both versions)
-    ctx.random_validate("fragsweep", 16 if q else 64, 30 if q else 120)
-    ctx.also_props = {"C04"}
 
 
 def c08(ctx):
